@@ -312,9 +312,90 @@ class PropagateReplicateCycles(Target):
         return [('acyclic-workflows-pass', out.kind == 'return')]
 
 
+def _is_exc(v, cls):
+    """an exception value of class cls: a real instance (native run) or the interpreter's exception value"""
+    return isinstance(v, cls) or (hasattr(v, 'cls') and isinstance(getattr(v, 'cls'), type) and issubclass(v.cls, cls))
+
+
+class ConcreteValidate(Target):
+    """FlowIRConcrete.validate: the list it returns is what the loader turns into the invalid-configuration error.  Every
+    problem that FlowIR.validate reports for the document and that FlowIR.validate_component reports for ANY real component
+    (unknown / wrongly typed option, dangling reference ...) is in that list, whatever environment the component names;
+    an environment that neither the platform nor the default platform defines is reported too."""
+    prop = 'C11'
+    name = 'FlowIRConcrete.validate'
+    file = F
+    qualname = 'FlowIRConcrete.validate'
+    compare_return = False
+    set_iter = 'sorted-repr'
+    trusted = ["FlowIR.validate / FlowIR.validate_component return the list of problems of the document / of one component "
+               "(schema validation itself is not under contract)", "FlowIRConcrete.get_environment raises FlowIREnvironmentUnknown "
+               "for an environment that is not visible to the platform"]
+    assumptions = ["<= 2 components; environment name absent / '' / none / NONE / environment / a defined name / an undefined "
+                   "name / not a string; each component with or without reported problems; $import documents"]
+
+    ENVS = ['<absent>', '', 'none', 'NONE', 'environment', 'defined-env', 'undefined-env', 42]
+
+    def setup(self, c):
+        n = 1 + c.choice('components', 2)
+        ids, comps, expected = [], {}, []
+        doc_errors = [errors.FlowIRInconsistency('document-level problem', {})] if c.one_of('document_problem', [False, True]) else []
+        expected += doc_errors
+        self_errors = {}
+        for i in range(n):
+            cid = (0, 'comp%d' % i)
+            ids.append(cid)
+            env = self.ENVS[c.choice('comp%d.environment' % i, len(self.ENVS))]
+            imported = c.one_of('comp%d.is_import' % i, [False, True]) if i == 1 else False
+            problems = [errors.FlowIRInconsistency('problem of comp%d' % i, {})] if c.one_of('comp%d.has_problem' % i, [False, True]) else []
+            comp = {'stage': 0, 'name': 'comp%d' % i, 'command': {}}
+            if env != '<absent>':
+                comp['command']['environment'] = env
+            if imported:
+                comp['$import'] = 'doc'
+            comps[cid] = (comp, problems, env, imported)
+            if not imported:
+                expected += problems
+
+        def get_environment(c, name, platform=None):
+            if name.lower() != 'defined-env':
+                c.raise_(errors.FlowIREnvironmentUnknown, name, 'default', {})
+            return {}
+        this = Obj('concrete', raw=Extern('raw', lambda c: {}), _documents={}, _flowir={}, _platform='default',
+                   platforms=['default'], get_component_identifiers=Extern('get_component_identifiers', lambda c, f=True: set(ids)),
+                   get_placeholder_identifiers=Extern('get_placeholder_identifiers', lambda c: set()),
+                   get_application_dependencies=Extern('get_application_dependencies', lambda c: []),
+                   get_component=Extern('get_component', lambda c, cid: dict(comps[cid][0])),
+                   get_component_configuration=Extern('get_component_configuration', lambda c, cid, **k: dict(comps[cid][0])),
+                   get_environment=Extern('get_environment', get_environment))
+        return State(args=[this], comps=comps, ids=ids, expected=expected, doc_errors=doc_errors)
+
+    def externs(self, c, st):
+        def validate_component(c, comp, **k):
+            return list(st.comps[(comp['stage'], comp['name'])][1])
+        return {'FlowIR.validate': Extern('FlowIR.validate', lambda c, raw, docs: list(st.doc_errors)),
+                'FlowIR.validate_component': Extern('FlowIR.validate_component', validate_component),
+                'FlowIR.type_flowir_component': Extern('FlowIR.type_flowir_component', lambda c, **k: 'schema'),
+                'FlowIR.application_dependency_to_name': Extern('application_dependency_to_name', lambda c, x: x)}
+
+    def ensures(self, c, st, out):
+        if out.kind == 'raise':
+            return [('no-exception', False)]
+        got = list(out.value)
+        cl = [('every-reported-problem-reaches-the-caller', all(any(e is g for g in got) for e in st.expected))]
+        for cid, (comp, problems, env, imported) in st.comps.items():
+            if imported:
+                continue
+            if env == 'undefined-env':
+                cl.append(('an-environment-nobody-defines-is-reported', any(_is_exc(g, errors.FlowIREnvironmentUnknown) for g in got)))
+            if env == 42:
+                cl.append(('a-non-string-environment-is-reported', any(_is_exc(g, errors.FlowIRSyntaxException) for g in got)))
+        return cl
+
+
 CycleCheck.alternatives = {'a-cycle-is-rejected': 'cycle-rejection'}
 CycleCheck.alt_case = lambda self, c, st: st.shape
 
 TARGETS = [ValidateReferences(), DuplicateIdentifiers(), TryReportErrors(), InitializeFunnel(), CycleCheck(),
-           PropagateReplicateCycles()]
+           PropagateReplicateCycles(), ConcreteValidate()]
 LEMMAS = []
